@@ -40,3 +40,7 @@ Definition is_panic {A} (m : outcome A) : bool :=
 
 Notation "x <- m ;; f" := (bind m (fun x => f))
   (at level 61, m at next level, right associativity).
+
+(* Extraction root that forces the numeric datatypes (and their modules
+   BinNums/Datatypes) into every engine's extracted code, for drvlib.ml. *)
+Definition base_roots := (Z.add, N.add, Nat.add, Pos.add, @List.length Z).
